@@ -116,23 +116,33 @@ def ownership(ctx, rep, cfgs=None):
                  'calls are made directly or through helpers')
         from .bitflow import Interp, State, Ptr, BV
         from .harness import Deps, symbolic_seed
-        F = P.fn(relfn); where = '%s:%s' % ((F.file or '').replace('/repo/', ''), F.line)
-        for arg_is_null in (True, False):
+        from .e7 import role_const
+        subjects = [(P.fn('polyseed_free'), True), (P.fn('polyseed_free'), False)]
+        if base_name(relfn) != 'polyseed_free': subjects.append((P.fn(relfn), False))      # an internal release helper is only ever handed an owned block (OWN-3)
+        for F, arg_is_null in subjects:
+            where = '%s:%s' % ((F.file or '').replace('/repo/', ''), F.line); relfn_ = F.name
             summ = {}; I = Interp(P, summaries=summ); Deps(I).install(summ)
             st = State()
             if arg_is_null: arg = BV.const(0, 64)
             else: arg, _ = symbolic_seed(I, st, name='block', canonical=False)
-            outs = I.run(F, [arg] + [BV.const(0, p_['bits'] or 64) for p_ in F.params[1:]], st)
+            pidx = next((n_ for n_, p_ in enumerate(F.params) if p_['ty'].endswith('*')), 0)
+            args_ = []
+            for n_, p_ in enumerate(F.params):
+                if n_ == pidx: args_.append(arg)
+                else:
+                    c_ = role_const(P, F, n_)
+                    args_.append(BV.const(c_ if c_ is not None else 0, p_['bits'] or 64))
+            outs = I.run(F, args_, st)
             rep.instances(len(outs), 1, 'outcomes of the release function')
             for o in outs:
                 ev = [t for t in o.state.trace if t[0] in ('memzero', 'memzero-symbolic-length', 'free', 'alloc', 'randbytes', 'pbkdf2', 'time', 'u8_nfc', 'u8_nfkd')]
                 if arg_is_null:
-                    rep.check(not ev, 'NULL argument: no injected function is called', where, relfn, detail=[str(e)[:80] for e in ev], sample='NULL -> no calls')
+                    rep.check(not ev, 'NULL argument: no injected function is called', where, relfn_, detail=[str(e)[:80] for e in ev], sample='NULL -> no calls')
                 else:
                     ok = len(ev) == 2 and ev[0][0] == 'memzero' and ev[0][1] == repr(Ptr('block', 0)) and ev[0][2] == size and ev[1][0] == 'free' and ev[1][1] == repr(Ptr('block', 0))
                     ok = ok and all(c == [0] * 8 for c in o.state.mem.objs['block'])
-                    rep.check(ok, 'block: dep:memzero(block, %d) then dep:free(block); the block is all-zero when released' % size, where, relfn,
-                              detail=[str(e)[:100] for e in ev], sample=[e[0] for e in ev], key='OWN-2|%s' % base_name(relfn))
+                    rep.check(ok, 'block: dep:memzero(block, %d) then dep:free(block); the block is all-zero when released' % size, where, relfn_,
+                              detail=[str(e)[:100] for e in ev], sample=[e[0] for e in ev], key='OWN-2|%s' % base_name(relfn_))
 
         # ---- typestate per constructor path
         rep.rule('OWN-3', 'on every path of every function that allocates: at most one allocation of sizeof(seed) bytes; the '
@@ -265,6 +275,11 @@ def _typestate(P, f, w, rep, rel, cap, relfn, size, OK, EMEM, wrappers=()):
     if not released and not transferred:
         rep.fail('block neither released nor handed to the caller on this path: leak (status %s)' % (rc,), where, cons,
                  detail=pathdesc, key=key + '|leak')
+        return
+    if base_name(f.name) in ('polyseed_create', 'polyseed_load', 'polyseed_decode', 'polyseed_decode_explicit'):
+        # which status accompanies publish / release is decided path-sensitively by the exit summaries of these four functions (CREATE, LOAD-EXITS, DEC-EXITS), which
+        # every property running this rule also runs; the path walker cannot relate statuses computed by counters / conditional expressions to the branch taken
+        rep.ok('%s: block %s exactly once (status: exit-summary rules)' % (cons, 'published' if transferred else 'released'))
         return
     if rc is not None and rc[0] == 'value':
         # status computed from flags / conditional expressions: its agreement with publish/release is decided by the exit summaries (CREATE,
